@@ -1141,7 +1141,11 @@ impl<'p, W, R, T> CompilationScope<'p, W, R, T> {
                     new_types.push(if let XType::Auto = t.as_ref() {
                         match args {
                             None => return Err(CompilationError::AutoSpecializationWithoutCall),
-                            Some(args) => self.type_of(&args[i])?,
+                            // more `$` placeholders than arguments: there is no argument to take the type from
+                            Some(args) => match args.get(i) {
+                                Some(arg) => self.type_of(arg)?,
+                                None => return Err(CompilationError::AutoSpecializationWithoutCall),
+                            },
                         }
                     } else {
                         t.clone()
